@@ -29,6 +29,7 @@ class RepoIndex:
         self.classes = {}       # name -> (file, ClassDef)
         self.functions = {}     # qualname -> (file, FunctionDef)
         self.module_assigns = {}
+        self.module_imports = set()     # names bound by module-level imports
         self.field_kinds = {}   # (cls, field) -> Kind  (for symbolic references)
         self.extra_globals = {}
         for f in files:
@@ -57,6 +58,9 @@ class RepoIndex:
                 for t in n.targets:
                     if isinstance(t, ast.Name):
                         self.module_assigns.setdefault(t.id, (rel, n.value))
+            elif isinstance(n, (ast.Import, ast.ImportFrom)):
+                for a in n.names:
+                    self.module_imports.add((a.asname or a.name).split('.')[0])
 
     # ------------------------------------------------------------
     def local_map(self, qual, node=None):
